@@ -136,6 +136,7 @@ def analyse(p: State, counting: bool, token_params: Dict[str, Tuple[str, str, Li
                 fg, ct = bin_parts(e.obj)
                 nt = Token(e.obj, src.finger, src.count, "materialised", list(src.cands))
                 nt.pending_of = src  # type: ignore
+                fl.held.remove(src)  # the bin object now stands for the held fingerprint
                 fl.held.append(nt)
         elif e.kind == "setelem" and is_slot(e.cont, e.index) is not None:
             b, j = is_slot(e.cont, e.index)
